@@ -3,12 +3,20 @@
 #include <yaclib/fault/detail/atomic.hpp>
 
 #include <atomic>
+#ifdef YACLIB_VERIF
+#  include <yaclib/fault/verif_hook.hpp>
+#endif
 
 namespace yaclib::detail {
 
 static std::uint32_t sAtomicFailFrequency = 13;
 
 bool ShouldFailAtomicWeak() {
+#ifdef YACLIB_VERIF
+  if (verif::gHooks != nullptr && verif::gHooks->weak_fail != nullptr) {
+    return verif::gHooks->weak_fail();
+  }
+#endif
   auto freq = sAtomicFailFrequency;
   return freq != 0 && GetRandNumber(freq) == 0;
 }
